@@ -105,7 +105,7 @@ def build(case):
         q = D("q", "torch.distributions.Gamma", "z", concentration=P("q.a", [qa]), rate=P("q.b", [qb]))
         ref = {"logq": lambda z: stats.gamma.logpdf(z, qa, scale=1 / qb).sum(-1), "entropy": stats.gamma.entropy(qa, scale=1 / qb)}
         terms = ["prior", "lik"]
-        if case["seed"] % 4 == 1:
+        if case["seed"] % 4 == 1 and case["objective"] != "driver":
             # a factor of the joint that involves no sampled variable (a hyper-prior on a quantity held fixed): a constant added to log Z
             h0 = float(gm.loguniform(rng, 0.5, 3))
             p.append(D("hyper", "torch.distributions.Gamma", P("hyper.x", [h0]), concentration=2.0, rate=1.5))
@@ -555,7 +555,7 @@ def run_driver(case, dic, b, rec, V, C, detail, logZ):
         return out
 
     obj._call = call
-    names = [i for i in dic if i.startswith("q.")]
+    names = [i for i in dic if i.startswith("q.") and type(dic[i]).__name__ == "Parameter"]  # (the variational parameters, not a distribution called q.*)
     spec = {"id": "opt", "type": "Optimizer", "algorithm": "torch.optim.SGD", "options": {"lr": 0.0}, "maximize": True, "loss": "obj", "parameters": names, "iterations": 4, "checkpoint": False}
     tt.load(spec, dic)
     dic["opt"].checkpoint = None
